@@ -9,7 +9,9 @@ import (
 	"encoding/json"
 	"fmt"
 	"os"
+	"runtime"
 	"strconv"
+	"strings"
 	"sync"
 	"time"
 )
@@ -185,3 +187,38 @@ func vfMap(m map[string]any, k string) map[string]any {
 	}
 	return map[string]any{}
 }
+
+// vfAllBlocked reports whether every goroutine other than the caller is parked (not running, not runnable, not in
+// a system call other than the signal receiver), judged from the runtime's own goroutine states.
+func vfAllBlocked() bool {
+	buf := make([]byte, 1<<20)
+	n := runtime.Stack(buf, true)
+	first := true
+	for _, blk := range strings.Split(string(buf[:n]), "\n\n") {
+		if !strings.HasPrefix(blk, "goroutine ") {
+			continue
+		}
+		if first { // the caller itself
+			first = false
+			continue
+		}
+		i, j := strings.IndexByte(blk, '['), strings.IndexByte(blk, ']')
+		if i < 0 || j < i {
+			continue
+		}
+		state := blk[i+1 : j]
+		if k := strings.IndexByte(state, ','); k >= 0 {
+			state = state[:k]
+		}
+		switch state {
+		case "running", "runnable":
+			return false
+		case "syscall":
+			if !strings.Contains(blk, "signal_recv") {
+				return false
+			}
+		}
+	}
+	return true
+}
+
